@@ -25,6 +25,7 @@ MethodInvokeInfo = record(P + "cpp_types.MethodInvokeInfo",
 # ---------------------------------------------------------------- heap fields (Burstall-Bornat: one array per field name)
 T = P + "cpp_types.terminal"
 TERM = RefOf(T)
+TYPETEXT = pseudo_base("verif.TypeText", [T])
 VAL = RefOf(P + "cpp_representation.cpp_value")
 field("_type", Str)
 field("_p_depth", Int)
@@ -100,7 +101,7 @@ field("_target", RefOf(P + "cpp_representation.cpp_value"))
 field("_value", RefOf(P + "cpp_representation.cpp_value"))
 field("_line", Str)
 field("_tree_name", Str)
-field("_leaves", TList(TTup([Str, Ref])))
+field("_leaves", TList(TTup([Str, VAL])))
 field("_scope_stack", TList(RefOf(BLOCK)))
 field("_block", RefOf(BLOCK))
 field("_book_block", RefOf(BLOCK))
@@ -121,3 +122,8 @@ field("fields", TList(Ref))
 CPPFunction = record(P + "cpp_functions.cpp_function",
                      TRec("cpp_function", [("cpp_name", Str), ("include_files", TList(Str)), ("cpp_return_type", RefOf(T))]))
 glob(P + "cpp_functions.functions_to_replace", TDict(Str, CPPFunction))
+
+# ---------------------------------------------------------------- C++ source emitter (common/executor.py)
+field("_lines_of_query_code", TList(Str))
+field("_indent_level", Int)
+EMITTER = RefOf(P + "executor._cpp_source_emitter")
